@@ -3,7 +3,6 @@ use std::{
     fmt::Debug,
     iter::FusedIterator,
     ops::{Deref, DerefMut, RangeBounds},
-    slice::{from_raw_parts, from_raw_parts_mut},
 };
 
 use ref_cast::RefCast;
@@ -12,7 +11,7 @@ use super::node::ValueMut;
 use crate::{
     serde::tri,
     value::{
-        node::{Value, ValueRefInner},
+        node::Value,
         value_trait::JsonValueTrait,
     },
 };
@@ -655,28 +654,18 @@ pub struct IntoIter {
 }
 
 impl IntoIter {
+    /// Returns the remaining items of this iterator as a mutable slice.
     pub fn as_mut_slice(&mut self) -> &mut [Value] {
-        if let ValueMut::Array(array) = self.array.0.as_mut() {
-            unsafe {
-                let ptr = array.as_mut_ptr();
-                let len = array.len();
-                from_raw_parts_mut(ptr, len)
-            }
-        } else {
-            panic!("Array::as_mut_slice: not an array");
+        let (index, len) = (self.index, self.len);
+        if index == len {
+            return &mut [];
         }
+        &mut self.array.as_mut_slice()[index..len]
     }
 
+    /// Returns the remaining items of this iterator as a slice.
     pub fn as_slice(&self) -> &[Value] {
-        if let ValueRefInner::Array(array) = self.array.0.as_ref2() {
-            unsafe {
-                let ptr = array.as_ptr();
-                let len = array.len();
-                from_raw_parts(ptr, len)
-            }
-        } else {
-            panic!("Array::as_slice: not an array");
-        }
+        &self.array.as_slice()[self.index..self.len]
     }
 }
 
